@@ -248,3 +248,80 @@ Proof.
   intros Hc. cbn [ends back fst snd]. unfold step1. cbn [snd fst xorb]. rewrite Hc.
   cbn [existsb snd]. rewrite Nat.eqb_refl. reflexivity.
 Qed.
+
+(* ---------------------------------------------------------------- fuel: the out-of-fuel branch of rep_loop is never taken *)
+Definition shrinks (step : list N * list N -> list (list N * list N)) : Prop :=
+  forall st st', In st' (step st) -> length (snd st') <= length (snd st).
+
+Lemma flat_map_ext_in {A B} (f g : A -> list B) l :
+  (forall x, In x l -> f x = g x) -> flat_map f l = flat_map g l.
+Proof.
+  induction l as [|x l IH]; intros H; [reflexivity|]. cbn [flat_map].
+  rewrite (H x (or_introl eq_refl)), IH; [reflexivity|]. intros y Hy. apply H. right. exact Hy.
+Qed.
+
+Lemma rep_loop_shrinks step g : shrinks step ->
+  forall fuel lo hi st st', In st' (rep_loop step g lo hi fuel st) -> length (snd st') <= length (snd st).
+Proof.
+  intros Hs. induction fuel as [|f IH]; intros lo hi st st' Hin; [destruct Hin|].
+  cbn [rep_loop] in Hin. destruct lo as [|lo'].
+  - destruct (is_zero_opt hi).
+    + destruct Hin as [<-|[]]. apply le_n.
+    + assert (Hmore : forall x, In x (flat_map (fun st'0 => if Nat.ltb (length (snd st'0)) (length (snd st))
+                                   then rep_loop step g 0 (pred_opt hi) f st'0 else []) (step st)) ->
+                                length (snd x) <= length (snd st)).
+      { intros x Hx. apply in_flat_map in Hx as (mid & Hmid & Hx).
+        destruct (Nat.ltb (length (snd mid)) (length (snd st))) eqn:Hlt; [|destruct Hx].
+        apply Nat.ltb_lt in Hlt. specialize (IH _ _ _ _ Hx). lia. }
+      destruct g.
+      * apply in_app_or in Hin as [Hin | [<-|[]]]; [apply Hmore; exact Hin | apply le_n].
+      * destruct Hin as [<- | Hin]; [apply le_n | apply Hmore; exact Hin].
+  - apply in_flat_map in Hin as (mid & Hmid & Hin). specialize (IH _ _ _ _ Hin). specialize (Hs _ _ Hmid). lia.
+Qed.
+
+Lemma step1_shrinks ok : shrinks (step1 ok).
+Proof.
+  intros [pre rest] st' Hin. unfold step1 in Hin. cbn [snd fst] in Hin. destruct rest as [|c t]; [destruct Hin|].
+  destruct (ok c); [|destruct Hin]. destruct Hin as [<-|[]]. cbn. lia.
+Qed.
+
+Lemma ends_shrinks E r : shrinks (ends E r).
+Proof.
+  induction r; intros st st' Hin; cbn [ends] in Hin;
+    try (apply (step1_shrinks _ _ _ Hin)).
+  - destruct Hin as [<-|[]]. apply le_n.
+  - apply in_flat_map in Hin as (mid & Hmid & Hin). specialize (IHr1 _ _ Hmid). specialize (IHr2 _ _ Hin). lia.
+  - apply in_app_or in Hin as [Hin|Hin]; [apply (IHr1 _ _ Hin) | apply (IHr2 _ _ Hin)].
+  - apply (rep_loop_shrinks _ _ IHr _ _ _ _ _ Hin).
+  - apply (IHr _ _ Hin).
+  - destruct (xorb neg (nonempty (ends E r st))); [destruct Hin as [<-|[]]; apply le_n | destruct Hin].
+  - destruct (back w st).
+    + destruct (xorb neg _); [destruct Hin as [<-|[]]; apply le_n | destruct Hin].
+    + destruct neg; [destruct Hin as [<-|[]]; apply le_n | destruct Hin].
+  - destruct (xorb neg (word_boundary E st)); [destruct Hin as [<-|[]]; apply le_n | destruct Hin].
+  - destruct (at_bol E st); [destruct Hin as [<-|[]]; apply le_n | destruct Hin].
+  - destruct (at_eol E st); [destruct Hin as [<-|[]]; apply le_n | destruct Hin].
+Qed.
+
+(* any fuel above lo + |rest| gives the same result: the fuel of `ends` is never exhausted *)
+Lemma rep_loop_fuel step g : shrinks step ->
+  forall f1 lo hi st f2, lo + length (snd st) < f1 -> lo + length (snd st) < f2 ->
+  rep_loop step g lo hi f1 st = rep_loop step g lo hi f2 st.
+Proof.
+  intros Hs. induction f1 as [|f1 IH]; intros lo hi st f2 H1 H2; [lia|]. destruct f2 as [|f2]; [lia|].
+  cbn [rep_loop]. destruct lo as [|lo'].
+  - destruct (is_zero_opt hi); [reflexivity|].
+    assert (Hm : flat_map (fun st' => if Nat.ltb (length (snd st')) (length (snd st))
+                                      then rep_loop step g 0 (pred_opt hi) f1 st' else []) (step st)
+               = flat_map (fun st' => if Nat.ltb (length (snd st')) (length (snd st))
+                                      then rep_loop step g 0 (pred_opt hi) f2 st' else []) (step st)).
+    { apply flat_map_ext_in. intros st' Hin.
+      destruct (Nat.ltb (length (snd st')) (length (snd st))) eqn:Hlt; [|reflexivity].
+      apply Nat.ltb_lt in Hlt. apply IH; lia. }
+    rewrite Hm. reflexivity.
+  - apply flat_map_ext_in. intros st' Hin. specialize (Hs _ _ Hin). apply IH; lia.
+Qed.
+
+Lemma ends_rep_fuel E g lo hi r st fuel : lo + length (snd st) < fuel ->
+  ends E (RRep g lo hi r) st = rep_loop (ends E r) g lo hi fuel st.
+Proof. intros H. cbn [ends]. apply rep_loop_fuel; [apply ends_shrinks | lia | exact H]. Qed.
